@@ -1277,7 +1277,7 @@ func seqCase(r *mon.Run, idx int) (abort bool) {
 func TestCheck(t *testing.T) {
 	r := mon.Start(t, "C11")
 	defer r.Finish()
-	r.Rule("sequential cases: PRNG scripts of 6-30 steps over {metric batch (1-4 datapoints, mostly one source, sometimes mixed / empty source), event, complete the outstanding lookup of s with instance | not-found (negative cache entry) | error (nil, nothing cached), evict s, emit stats} with 1-4 sources, judged after every step against a model of cache and parked sets; concurrent cases: 2-4 dispatcher goroutines, a completer answering requested sources with random outcomes and evictions, an emitter, judged offline on the stamped log. Non-trivial: a source that had both metrics and events parked around one pending lookup, or a failed lookup followed by a re-arrival; distinct by the per-source step pattern (M/E parked, m/e immediate, I/N/X completion, V evict), concurrent runs by (sources, dispatchers, what was parked).")
+	r.Rule("sequential cases: PRNG scripts of 6-30 steps over {metric batch (1-4 datapoints, mostly one source, sometimes mixed / empty source), event, complete the outstanding lookup of s with instance | not-found (negative cache entry) | error (nil, nothing cached), evict s, emit stats} with 1-4 sources, judged after every step against a model of cache and parked sets; concurrent cases: 2-4 dispatcher goroutines, a completer answering requested sources with random outcomes and evictions, an emitter, judged offline on the stamped log. Non-trivial: a source that had both metrics and events parked around one pending lookup, or a failed lookup followed by a re-arrival; distinct by the per-source step pattern (M/E parked, m/e immediate, I/N/X completion, V evict), concurrent runs by (sources, dispatchers, what was parked). Integrated cases: the real CloudHandler on the real CachedCloudProvider (scripted CloudProvider with random per-call outcomes F/P/E/X/Y, batch limit 1/2/5/16, optionally one call held open; 12 h TTLs and a mock clock that never moves) with 1-6 sources: first a forced late arrival (the return of a missing Peek is delayed until the first lookup of that source was answered and handled, so the item needs a second lookup of an already cached source), then 2-4 concurrent dispatchers with further delayed misses; judged by the same offline oracle on what a logging decorator saw (cache hits, lookups written, InstanceInfos delivered), plus bounded progress: nothing stays parked once every provider call returned and every lookup was answered. Distinct by (sources, batch limit, dispatchers, kind and outcome of the late item, held call).")
 	r.Assume("the fake CachedInstances answers only requested sources and populates its cache before delivering the InstanceInfo, like the real caches")
 	r.Assume("MetricMap.Receive builds the input maps; ref.FromMap flattens what arrives downstream")
 
@@ -1289,6 +1289,8 @@ func TestCheck(t *testing.T) {
 		if rc.Mode == "conc" {
 			r.Case("conc %d", rc.Index)
 			runConc(r, rc.Index, 10*time.Second)
+		} else if rc.Mode == "integ" {
+			integCase(r, rc.Index)
 		} else {
 			seqCase(r, rc.Index)
 		}
@@ -1314,6 +1316,12 @@ func TestCheck(t *testing.T) {
 			stuck = 0
 		} else {
 			stuck++
+		}
+	}
+	for i, n := 0, r.N(200, 8000); i < n; i++ {
+		if integCase(r, i) {
+			r.Extra("aborted_after_progress_violation", 1)
+			return
 		}
 	}
 }
